@@ -86,6 +86,20 @@ pub fn run(seed: u64, consts_path: &str, thorough: bool, out: &mut Vec<Value>) {
         if thorough {
             vecs.push(vec![rnd(&mut r); n]); // equal elements
         }
+        // histories: the same values in other places / a vector that differs from the previous one only in its
+        // last element, evaluated right after it (state kept between evaluations would show)
+        if n >= 2 && (thorough || n <= 3) {
+            let mut w = vecs[0].clone();
+            w.rotate_left(1);
+            vecs.insert(1, w);
+        }
+        if n == 2 || (thorough && n >= 2) {
+            let mut w = vecs[0].clone();
+            let k = w.len() - 1;
+            w[k] = rnd(&mut r);
+            vecs.insert(1, w);
+            vecs.insert(2, vecs[0].clone()); // and the first one again
+        }
         for v in vecs {
             let frs: Vec<Fr> = v.iter().map(big_fr).collect();
             let lib = catch(AssertUnwindSafe(|| poseidon_hash(&frs)));
@@ -113,8 +127,24 @@ pub fn run(seed: u64, consts_path: &str, thorough: bool, out: &mut Vec<Value>) {
     }
     // hash-to-field: block-boundary lengths of Keccak-256 (rate 136)
     let lens: Vec<usize> = if thorough { vec![0, 1, 31, 32, 33, 135, 136, 137, 271, 272, 273, 1000, 4095, 4096, 4097, 8192, 10000] } else { vec![0, 1, 135, 136, 137, 272, 300, 4096, 4097] };
+    let mut prev: Vec<u8> = Vec::new();
+    let mut msgs: Vec<Vec<u8>> = Vec::new();
     for n in lens {
         let m: Vec<u8> = (0..n).map(|_| r.gen()).collect();
+        msgs.push(m.clone());
+        if n == 136 || n == 1 {
+            // same length, same prefix, last byte differs; then the first one again
+            let mut m2 = m.clone();
+            m2[n - 1] ^= 0x80;
+            msgs.push(m2);
+            msgs.push(m.clone());
+        }
+        prev = m;
+    }
+    let _ = prev;
+    for m in msgs {
+        let n = m.len();
+        let _ = n;
         let h = catch(AssertUnwindSafe(|| hash_to_field(&m)));
         let mut o1 = Vec::new();
         let _ = rln::public::hash(Cursor::new(m.clone()), &mut o1);
